@@ -201,8 +201,9 @@ func (s *St) observer(op, path string, off int64, b []byte) error {
 			s.faultOp = op
 			if op == "write" && s.faultPartial >= 0 {
 				n := s.faultPartial
-				if n > len(b) {
+				if n >= len(b) {
 					n = len(b)
+					s.faultOp = "writefull" // the whole record reached the file before the error was reported
 				}
 				if n > 0 {
 					if f, err := os.OpenFile(path, os.O_RDWR, 0644); err == nil {
